@@ -379,10 +379,13 @@ ASSUMPTIONS = ["delays are integers below 2^31 samples per flush (vgm_export cap
                "realloc never fails (bad_alloc is not modelled)",
                "date and notes defaults (wall clock, build stamp) are inputs of the model; the harness canonicalises them by shape"]
 TECHNIQUE = "Lean 4 proof (invariant over writer operation sequences, parser prefix lemmas) + differential correspondence model<->vgm.cpp + spec oracle on exported bytes"
-LEVEL_TEXT = ("Machine-checked theorems over a Lean model of vgm.cpp: for every operation sequence the exporter can produce (any writes, any "
-              "delays, loop point anywhere incl. sample 0, data block, DAC stream ops, any valid UTF-8 tags) no store leaves the allocation, no "
-              "indeterminate byte is exported, and the produced file parses completely under the VGM reader of Spec/VgmParse with exact EOF/GD3 "
-              "offsets, total and loop sample counts equal to the wait sums, and exactly eleven terminated GD3 strings rendering the tags.")
+LEVEL_TEXT = ("Machine-checked theorems over a Lean model of vgm.cpp, for ALL inputs: (no_overflow) no sequence of public VGM_Writer operations "
+              "with any arguments stores outside the allocation; (delay_encoding) every delay is encoded by 61/7n waits summing to it; "
+              "(stream_parses, sample_total, determinacy up to stop) after any exporter operation sequence and stop the buffer is header ++ stream "
+              "++ 66 with every cell determinate, the VGM 1.61 reader of Spec/VgmParse consumes the stream exactly to the end marker and the "
+              "sample count equals the sum of the waits = the sum of the delays. The remaining clauses (EOF/GD3 offsets, header fields after "
+              "poke, loop offset/length, eleven GD3 strings = tags, clocks, PCM stream ranges) are stated in C08_full_statement and are decided "
+              "per case by the spec oracle on the real bytes (writer-level operation sequences and whole-song exports), not by a theorem.")
 LEVEL_NOTE = ("Trusted: Lean kernel, the hand-written model Model/Vgm.lean (agreement with vgm.cpp by differential testing under ASan with "
-              "filled allocations), Spec/VgmParse.lean, integer delays, g++/ASan/UBSan and the harness. Clock and PCM-stream clauses at song "
-              "level rest on the spec oracle applied to whole-song exports, not on a theorem about MD_Driver.")
+              "every fresh heap byte filled, zero differences), Spec/VgmParse.lean, integer delays, g++/ASan/UBSan and the harness. Partial: "
+              "header-field, loop, GD3-string, clock and PCM clauses rest on the spec oracle over generated cases, not on proof.")
